@@ -41,6 +41,7 @@ static long fail_n = -1;
 static int fail_kind = 0;  // 1 eio_write 2 enospc_write 3 short_enospc 4 eio_sync
 static int fail_sticky = 0;
 static int fail_fired = 0;
+static long fail_delay_ms = 0; // FJSHIM_FAIL_DELAY_MS: sleep inside the first failing call (after logging it)
 static long seq_all = 0;   // all tracked calls
 static long seq_scoped = 0; // calls in scope (used for kill/fail index)
 
@@ -111,6 +112,8 @@ static void init(void) {
     const char *c = strchr(k, ':');
     if (c) kill_t = atol(c + 1);
   }
+  const char *fd = getenv("FJSHIM_FAIL_DELAY_MS");
+  if (fd && *fd) fail_delay_ms = atol(fd);
   const char *f = getenv("FJSHIM_FAIL");
   if (f && *f) {
     char kind[64] = {0};
@@ -335,7 +338,16 @@ static ssize_t do_write(int fd, const void *buf, size_t len, long long off, int 
     logline(seq_all - 1, "KILLTORN", p, at, (long long)t, w);
     die();
   }
+  int first_fire = (fail_kind != 0 && !fail_fired);
   int fk = fail_now(idx, 1, 0);
+  if (fk && fk != 5 && first_fire && fail_delay_ms > 0) {
+    // make the failure visible in the log first, then hold the call (and whatever lock the caller
+    // holds) for a while so that other threads queue up behind it
+    logline(seq_all - 1, "writeFAIL", p, at, (long long)len, -1);
+    pthread_mutex_unlock(&mu);
+    usleep((useconds_t)fail_delay_ms * 1000);
+    pthread_mutex_lock(&mu);
+  }
   ssize_t ret;
   if (fk == 1) {
     errno = EIO;
